@@ -11,7 +11,8 @@ global sequence number; every event carries the id of the goroutine that logged 
 Logging is not atomic with the action it reports.  Every hook is placed either
 
 * BEFORE its action (`Ev.isBefore`: channel sends `fl fe wd`, `close` calls `cc rc`, semaphore
-  release `rl`, mutex `Unlock` `mu tr`, the unbuffered `outputDone` send `md`): the action happens after
+  release `rl`, `sc` – logged on entry of `stopFileReading`, which the reader's exit block runs before its
+  `wg.Done()` –, mutex `Unlock` `mu tr`, the unbuffered `outputDone` send `md`): the action happens after
   the log call returned and before the same goroutine logs its next event; or
 * AFTER its action (all other events: receives, `Lock()` returned, semaphore acquired, a line was
   classified and its counters bumped, …): the action happened before the log call and after the same
@@ -55,7 +56,7 @@ structure Ev where
 def noSrc : Nat := 1000000000
 
 /-- Event kinds whose hook is placed BEFORE the action. -/
-def beforeKinds : List String := ["fl", "fe", "rl", "cc", "wd", "rc", "mu", "md", "tr"]
+def beforeKinds : List String := ["fl", "fe", "rl", "sc", "cc", "wd", "rc", "mu", "md", "tr"]
 
 def Ev.isBefore (e : Ev) : Bool := beforeKinds.contains e.kind
 
